@@ -93,6 +93,15 @@ Definition code_ok (w : world) (now : Z) (r : treq) (st st' : store) : Prop :=
     validate_pkce (w_cfg w) (t_verifier r) s = None.
 
 Ltac dead := cbn; try discriminate.
+Ltac break_inner :=
+  match goal with
+  | |- context [run_seq (if ?b then _ else _) _] => let E := fresh "E" in destruct b eqn:E
+  | |- context [run_seq (match ?x with _ => _ end) _] =>
+      first [ is_var x; destruct x | let E := fresh "E" in destruct x eqn:E ]
+  end.
+Ltac client_eq :=
+  match goal with H : negb (ideq (c_id _) _) = false |- _ =>
+    apply negb_false_iff in H; apply N.eqb_eq in H; congruence end.
 
 Lemma code_grant_post w n now r st :
   is_tokens (snd (run_seq (code_grant w n now r) st)) = true ->
@@ -102,10 +111,448 @@ Proof.
   destruct (negb _); [dead|]. destruct (is_nil (t_code r)) eqn:ENil; [dead|].
   rewrite run_authenticated.
   destruct (snd (run_seq (authenticated w (t_cred r)) st)) as [c|] eqn:EA; [|dead].
-  cbn. destruct (find _ (st_asess st)) as [s|] eqn:EF; cbn; [|dead].
+  cbn. destruct (find _ (st_asess st)) as [s|] eqn:EF; cbn; [|destruct (find _ (st_gsess st)); cbn; discriminate].
   repeat (break_goal; cbn; try discriminate).
-  all: intros _; exists s, c; repeat split; auto.
-  all: try (apply negb_false_iff in E0; apply N.eqb_eq in E0; congruence).
+  all: intros _; match goal with s0 : asession, c0 : client |- _ => exists s0, c0 end; repeat split; auto.
+  all: try client_eq.
   all: try (apply negb_false_iff in E3; apply seqb_eq in E3; exact E3).
 Qed.
 
+
+(* ================================================================================== *)
+(* the step function in terms of the handler's run *)
+Lemma step_handler w st n o :
+  (forall d, o <> OpTick d) ->
+  step w st n o = (mkState (fst (run_seq (handler w n (s_now st) o) (s_store st))) (s_now st),
+                   snd (run_seq (handler w n (s_now st) o) (s_store st))).
+Proof.
+  intros NT. unfold step, step_with. destruct o; try (destruct (run_seq _ _); reflexivity).
+  exfalso. eapply NT; eauto.
+Qed.
+Lemma run_lift {A B} (p : prog A) (g : A -> B) st :
+  run_seq (bind p (fun x => Ret (g x))) st = (fst (run_seq p st), g (snd (run_seq p st))).
+Proof. rewrite run_seq_bind. destruct (run_seq p st); reflexivity. Qed.
+
+(* provenance of index values across one step *)
+Lemma step_prov w st n o : sfresh n st ->
+  (forall s, In s (st_asess (s_store (fst (step w st n o)))) -> aprov n (st_asess (s_store st)) s) /\
+  (forall g, In g (st_gsess (s_store (fst (step w st n o)))) -> gprov n (st_gsess (s_store st)) g).
+Proof.
+  intros F. destruct o;
+    try (rewrite step_handler by (intros d; discriminate); cbn [fst s_store];
+         apply disciplined_prov; [apply handler_disciplined|exact F]).
+  cbn. split; intros x Hx f; right; right; exists x; auto.
+Qed.
+
+(* ---- "a consumed credential is dead", generically for the four session indexes ---- *)
+Section OnceSession.
+  Variable f : afield.
+  Variable cons : config -> op -> obs -> option id.     (* the credential value a successful operation consumed *)
+  Variable wfop : op -> Prop.
+  (* what a successful consumption means on the stored sessions *)
+  Hypothesis cons_spec : forall w st n o v, sfresh n st -> wfop o ->
+    cons (w_cfg w) o (snd (step w st n o)) = Some v ->
+    v <> 0 /\ (exists s, In s (st_asess (s_store st)) /\ aget f s = v) /\
+    (forall s', In s' (st_asess (s_store (fst (step w st n o)))) -> aget f s' <> v).
+
+  (* acc: the operation was ACCEPTED on presentation of credential v (a superset of cons) *)
+  Variable acc : config -> op -> obs -> option id.
+  Hypothesis acc_spec : forall w st n o v, sfresh n st -> wfop o ->
+    acc (w_cfg w) o (snd (step w st n o)) = Some v -> v <> 0 ->
+    exists s, In s (st_asess (s_store st)) /\ aget f s = v.
+
+  (* 0: no consumed credential was ever accepted again; k: operation k (1-based) accepted a dead one *)
+  Fixpoint once_from (cfg : config) (used : list id) (k : nat) (ops : list op) (xs : list obs) : N :=
+    match ops, xs with
+    | o :: ops', x :: xs' =>
+        if match acc cfg o x with Some v => andb (memN v used) (negb (is_nil v)) | None => false end
+        then N.of_nat (S k)
+        else once_from cfg (match cons cfg o x with Some v => v :: used | None => used end) (S k) ops' xs'
+    | _, _ => 0
+    end.
+
+  Definition dead (used : list id) (n : nat) (st : state) : Prop :=
+    forall v, In v used -> v <> 0 /\ aold n f v /\ forall s, In s (st_asess (s_store st)) -> aget f s <> v.
+
+  Lemma dead_step w used st n o :
+    sfresh n st -> dead used n st -> dead used (S n) (fst (step w st n o)).
+  Proof.
+    intros F D v Hv. destruct (D v Hv) as [NZ [Old NoS]]. split; [auto|split].
+    - eapply aold_mono; [|eauto]. lia.
+    - intros s' Hs' E. destruct (step_prov w st n o F) as [PA _].
+      destruct (PA s' Hs' f) as [Z|[Nw|[y [Hy Ey]]]].
+      + congruence.
+      + eapply aold_not_now; [exact Old|]. rewrite <- E. exact Nw.
+      + eapply NoS; eauto. congruence.
+  Qed.
+
+  Lemma once_sound w : forall ops used st n,
+    Forall wfop ops -> sfresh n st -> dead used n st ->
+    once_from (w_cfg w) used n ops (snd (run_from w st n ops)) = 0.
+  Proof.
+    induction ops as [|o ops IH]; intros used st n WF F D; cbn; auto.
+    inversion WF as [|? ? WFo WFr]; subst.
+    unfold run_from in *. cbn.
+    pose proof (step_fresh w st n o F) as F1.
+    pose proof (dead_step w used st n o F D) as D1.
+    pose proof (cons_spec w st n o) as CS.
+    unfold step in *.
+    destruct (step_with (@run_seq obs) w st n o) as [st' x] eqn:E. cbn in *.
+    destruct (run_from_with (@run_seq obs) w st' (S n) ops) as [st'' tr] eqn:E2. cbn.
+    specialize (IH used st' (S n) WFr F1) as IHu. rewrite E2 in IHu. cbn in IHu.
+    pose proof (acc_spec w st n o) as AS. rewrite E in AS. cbn in AS.
+    destruct (acc (w_cfg w) o x) as [a|] eqn:EA.
+    - destruct (memN a used && negb (is_nil a))%bool eqn:EM.
+      + apply andb_true_iff in EM as [EM1 EM2]. apply memN_In in EM1. destruct (D a EM1) as [NZ [_ NoS]].
+        destruct (AS a F WFo eq_refl NZ) as [s [Hs Es]]. exfalso. eapply NoS; eauto.
+      + clear EM AS. revert IHu IH. generalize EA. clear EA. intros _ IHu IH.
+        destruct (cons (w_cfg w) o x) as [v|] eqn:EC; [|apply IHu; auto].
+        destruct (CS v F WFo eq_refl) as [NZ [[s [Hs Es]] Gone]].
+        specialize (IH (v :: used) st' (S n) WFr F1). rewrite E2 in IH. cbn in IH. apply IH.
+        intros v' [<-|Hv']; [|apply D1; auto].
+        split; [auto|split; [|auto]].
+        destruct F as [[FO _] _]. destruct (FO s f Hs) as [Z|Old]; [congruence|].
+        rewrite Es in Old. eapply aold_mono; [|eauto]. lia.
+    - clear AS.
+      destruct (cons (w_cfg w) o x) as [v|] eqn:EC; [|apply IHu; auto].
+      destruct (CS v F WFo eq_refl) as [NZ [[s [Hs Es]] Gone]].
+      specialize (IH (v :: used) st' (S n) WFr F1). rewrite E2 in IH. cbn in IH. apply IH.
+      intros v' [<-|Hv']; [|apply D1; auto].
+      split; [auto|split; [|auto]].
+      destruct F as [[FO _] _]. destruct (FO s f Hs) as [Z|Old]; [congruence|].
+      rewrite Es in Old. eapply aold_mono; [|eauto]. lia.
+  Qed.
+
+  Theorem once_all_histories w dyn ops :
+    Forall wfop ops -> once_from (w_cfg w) [] 0 ops (run w dyn ops) = 0.
+  Proof.
+    intros WF. unfold run. apply once_sound; auto.
+    - apply fresh_init.
+    - intros v [].
+  Qed.
+End OnceSession.
+
+(* ---- instance: authorization codes ---- *)
+Definition cons_code (_ : config) (o : op) (x : obs) : option id :=
+  match o, x with
+  | OpToken GAuthorizationCode r, Out (OTokens _) => Some (t_code r)
+  | _, _ => None
+  end.
+
+Lemma find_code_in c l s : find (fun s => ideq (a_code s) c) l = Some s -> In s l /\ a_code s = c.
+Proof. intros H. apply find_some in H as [H1 H2]. apply N.eqb_eq in H2. auto. Qed.
+
+Lemma cons_code_spec w st n o v : sfresh n st -> True ->
+  cons_code (w_cfg w) o (snd (step w st n o)) = Some v ->
+  v <> 0 /\ (exists s, In s (st_asess (s_store st)) /\ aget FCode s = v) /\
+  (forall s', In s' (st_asess (s_store (fst (step w st n o)))) -> aget FCode s' <> v).
+Proof.
+  intros F _ H. destruct o; try discriminate. destruct g; try discriminate.
+  rewrite step_handler in * by (intros d; discriminate). cbn [handler fst snd s_store] in *.
+  rewrite run_lift in *. cbn [fst snd] in *.
+  destruct (snd (run_seq (code_grant w n (s_now st) r) (s_store st))) eqn:EO; try discriminate.
+  cbn in H. inversion H; subst v. clear H.
+  pose proof (code_grant_post w n (s_now st) r (s_store st)) as P. rewrite EO in P. specialize (P eq_refl).
+  destruct P as [s [c [NN [EF [ED _]]]]]. apply find_code_in in EF as [Hs Ec].
+  split; [|split].
+  - intros Z. rewrite Z in NN. discriminate.
+  - exists s; auto.
+  - intros s' Hs' E. rewrite ED in Hs'. apply (in_del _ a_id) in Hs' as [Hs'1 Hs'2].
+    apply Hs'2. destruct F as [[_ FU] _]. apply (FU s' s FCode); auto; cbn in *; [congruence|].
+    rewrite E. intros Z. rewrite Z in NN. discriminate.
+Qed.
+
+Theorem code_at_most_once_all w dyn ops : once_from cons_code cons_code (w_cfg w) [] 0 ops (run w dyn ops) = 0.
+Proof.
+  apply (once_all_histories FCode cons_code (fun _ => True)).
+  - intros; eapply cons_code_spec; eauto.
+  - intros w0 st n o v F W H _. eapply cons_code_spec; eauto.
+  - apply Forall_forall; auto.
+Qed.
+
+(* ---- instance: CIBA auth_req_id (polling and push delivery) ---- *)
+Definition ciba_ok (w : world) (now : Z) (r : treq) (st st' : store) : Prop :=
+  exists s c,
+    is_nil (t_auth_req r) = false /\
+    find (fun s => ideq (a_ciba s) (t_auth_req r)) (st_asess st) = Some s /\
+    st_asess st' = del_asess (a_id s) (st_asess st) /\
+    snd (run_seq (authenticated w (t_cred r)) st) = Some c /\
+    a_client s = c_id c /\
+    geb now (a_expires s) = false /\
+    t_ba r = BaApprove /\
+    c_ciba_mode c <> CibaPush.
+
+Lemma ciba_grant_post w n now r st :
+  is_tokens (snd (run_seq (ciba_grant w n now r) st)) = true ->
+  ciba_ok w now r st (fst (run_seq (ciba_grant w n now r) st)).
+Proof.
+  unfold ciba_grant.
+  destruct (negb _); [dead|].
+  rewrite run_authenticated.
+  destruct (snd (run_seq (authenticated w (t_cred r)) st)) as [c|] eqn:EA; [|dead].
+  destruct (is_nil (t_auth_req r)) eqn:ENil; [dead|].
+  cbn. destruct (find _ (st_asess st)) as [s|] eqn:EF; cbn; [|dead].
+  repeat (break_goal; cbn; try discriminate).
+  all: intros _; match goal with s0 : asession, c0 : client |- _ => exists s0, c0 end; repeat split; auto.
+  all: try client_eq.
+  all: try congruence.
+Qed.
+
+Definition has_tokens_notif (ns : list notif) : bool := existsb (fun nf => negb (is_nil (nf_at nf))) ns.
+Definition cons_ciba (_ : config) (o : op) (x : obs) : option id :=
+  match o, x with
+  | OpToken GCiba r, Out (OTokens _) => Some (t_auth_req r)
+  | OpNotifyOk a _, Notified true ns => if has_tokens_notif ns then Some a else None
+  | _, _ => None
+  end.
+(* the embedder calls the Notify API with the auth_req_id of a request it was given *)
+Definition wf_op (o : op) : Prop :=
+  match o with OpNotifyOk a _ => a <> 0 | OpNotifyFail a => a <> 0 | _ => True end.
+
+Lemma notify_success_post w n now a hg st :
+  has_tokens_notif (snd (snd (run_seq (notify_success w n now a hg) st))) = true ->
+  exists s, find (fun s => ideq (a_ciba s) a) (st_asess st) = Some s /\
+            st_asess (fst (run_seq (notify_success w n now a hg) st)) = del_asess (a_id s) (st_asess st) /\
+            geb now (a_expires s) = false.
+Proof.
+  unfold notify_success. cbn. destruct (find _ (st_asess st)) as [s|] eqn:EF; cbn; [|dead].
+  rewrite run_get_client.
+  destruct (snd (run_seq (get_client w (a_client s)) st)) as [c|] eqn:EA; [|dead].
+  repeat (break_goal; cbn; try discriminate).
+  all: intros _; exists s; repeat split; auto.
+Qed.
+
+Lemma find_ciba_in c l s : find (fun s => ideq (a_ciba s) c) l = Some s -> In s l /\ a_ciba s = c.
+Proof. intros H. apply find_some in H as [H1 H2]. apply N.eqb_eq in H2. auto. Qed.
+
+Local Opaque notify_success ciba_grant code_grant.
+Lemma cons_ciba_spec w st n o v : sfresh n st -> wf_op o ->
+  cons_ciba (w_cfg w) o (snd (step w st n o)) = Some v ->
+  v <> 0 /\ (exists s, In s (st_asess (s_store st)) /\ aget FCiba s = v) /\
+  (forall s', In s' (st_asess (s_store (fst (step w st n o)))) -> aget FCiba s' <> v).
+Proof.
+  intros F WF H. destruct o; try discriminate.
+  - destruct g; try discriminate.
+    rewrite step_handler in * by (intros d; discriminate). cbn [handler fst snd s_store] in *.
+    rewrite run_lift in *. cbn [fst snd] in *.
+    destruct (snd (run_seq (ciba_grant w n (s_now st) r) (s_store st))) eqn:EO; try discriminate.
+    cbn in H. inversion H; subst v. clear H.
+    pose proof (ciba_grant_post w n (s_now st) r (s_store st)) as P. rewrite EO in P. specialize (P eq_refl).
+    destruct P as [s [c [NN [EF [ED _]]]]]. apply find_ciba_in in EF as [Hs Ec].
+    split; [|split].
+    + intros Z. rewrite Z in NN. discriminate.
+    + exists s; auto.
+    + intros s' Hs' E. rewrite ED in Hs'. apply (in_del _ a_id) in Hs' as [Hs'1 Hs'2].
+      apply Hs'2. destruct F as [[_ FU] _]. apply (FU s' s FCiba); auto; cbn in *; [congruence|].
+      rewrite E. intros Z. rewrite Z in NN. discriminate.
+  - rewrite step_handler in * by (intros d; discriminate). cbn [handler fst snd s_store] in *.
+    rewrite run_seq_bind in *.
+    destruct (run_seq (notify_success w n (s_now st) a hg) (s_store st)) as [st1 [ok ns]] eqn:ER. cbn in *.
+    destruct ok; try discriminate. destruct (has_tokens_notif ns) eqn:EH; [|unfold has_tokens_notif in EH; rewrite EH in H; discriminate].
+    unfold has_tokens_notif in EH. rewrite EH in H. injection H as <-. fold (has_tokens_notif ns) in EH.
+    pose proof (notify_success_post w n (s_now st) a hg (s_store st)) as P. rewrite ER in P. cbn in P.
+    destruct (P EH) as [s [EF [ED _]]]. apply find_ciba_in in EF as [Hs Ec].
+    split; [auto|split].
+    + exists s; auto.
+    + intros s' Hs' E. rewrite ED in Hs'. apply (in_del _ a_id) in Hs' as [Hs'1 Hs'2].
+      apply Hs'2. destruct F as [[_ FU] _]. apply (FU s' s FCiba); auto; cbn in *; congruence.
+Qed.
+
+Theorem ciba_once_all w dyn ops : Forall wf_op ops -> once_from cons_ciba cons_ciba (w_cfg w) [] 0 ops (run w dyn ops) = 0.
+Proof.
+  apply (once_all_histories FCiba cons_ciba wf_op).
+  - intros; eapply cons_ciba_spec; eauto.
+  - intros w0 st n o v F W H _. eapply cons_ciba_spec; eauto.
+Qed.
+
+(* ---- request_uri and callback id: the session is re-saved without the index, or deleted ---- *)
+Definition replaced (l l' : list asession) (i : id) (f : afield) : Prop :=
+  forall x, In x l' -> (In x l /\ a_id x <> i) \/ (a_id x = i /\ aget f x = 0).
+Lemma replaced_put l x i f : a_id x = i -> aget f x = 0 -> replaced l (put_asess x l) i f.
+Proof.
+  intros Hi Hf y Hy. apply (in_put _ a_id) in Hy as [->|[Hy Ny]]; [right; auto|left; split; auto; congruence].
+Qed.
+Lemma replaced_del l i f : replaced l (del_asess i l) i f.
+Proof. intros y Hy. apply (in_del _ a_id) in Hy. left; tauto. Qed.
+
+Lemma replaced_gone n st l' s f v :
+  fresh n st -> In s (st_asess st) -> aget f s = v -> v <> 0 -> replaced (st_asess st) l' (a_id s) f ->
+  forall s', In s' l' -> aget f s' <> v.
+Proof.
+  intros [[_ FU] _] Hs Ev NZ R s' Hs' E. destruct (R s' Hs') as [[Hin Hne]|[_ Z]]; [|congruence].
+  apply Hne. apply (FU s' s f); auto; congruence.
+Qed.
+
+Definition started (o : out) : bool :=
+  match o with
+  | OPage _ => true
+  | ONav _ _ nv => match n_err nv with None => true | Some _ => false end
+  | _ => false
+  end.
+
+Local Transparent notify_success ciba_grant code_grant render_aerr.
+Local Opaque make_token.
+
+Lemma init_auth_par_post w n now r st :
+  cf_par_enabled (w_cfg w) = true -> is_nil (p_request_uri (ar_params r)) = false ->
+  started (snd (run_seq (init_auth w n now r) st)) = true ->
+  exists s, find (fun s => ideq (a_par s) (p_request_uri (ar_params r))) (st_asess st) = Some s /\
+            a_client s = ar_client r /\ geb now (a_expires s) = false /\
+            replaced (st_asess st) (st_asess (fst (run_seq (init_auth w n now r) st))) (a_id s) FPar.
+Proof.
+  intros EP ER. unfold init_auth.
+  destruct (is_nil (ar_client r)); [dead|].
+  rewrite run_get_client.
+  destruct (snd (run_seq (get_client w (ar_client r)) st)) as [c|] eqn:EC; [|dead].
+  destruct (negb _); [dead|].
+  unfold should_use_par. rewrite EP, ER. cbn [andb orb negb]. rewrite !orb_true_r. cbn [andb].
+  cbn. destruct (find _ (st_asess st)) as [s|] eqn:EF; cbn; [|dead].
+  destruct (negb (ideq (a_client s) (ar_client r))) eqn:ECl; [cbn; unfold render_aerr; dead|].
+  destruct (geb now (a_expires s)) eqn:EX; [cbn; dead|].
+  destruct (validate_in_out _ _ _ _) eqn:EV; [cbn; unfold render_aerr; destruct a; cbn; try discriminate; unfold nav_err; cbn; discriminate|].
+  rewrite run_seq_bind.
+  match goal with |- context [run_seq (start_session w n now c ?s' r) st] => remember s' as s1 eqn:Es1 end.
+  assert (Hid : a_id s1 = a_id s) by (subst s1; destruct (is_fapi _); reflexivity).
+  clear Es1.
+  unfold start_session.
+  repeat match goal with |- context [if ?b then Ret _ else _] => destruct b; [cbn; unfold finish_ares, render_aerr, nav_err; cbn; try discriminate|] end.
+  cbn [run_seq].
+  unfold authenticate.
+  destruct (ar_pol r); cbn [run_seq]; unfold save_a.
+  all: try rewrite run_get_client.
+  all: repeat (cbn; try discriminate; break_inner).
+  all: cbn; try discriminate.
+  all: intros _; exists s; repeat split; auto.
+  all: try (apply negb_false_iff in ECl; apply N.eqb_eq in ECl; exact ECl).
+  all: cbn; rewrite <- ?Hid; first [apply replaced_put; reflexivity | apply replaced_del].
+Qed.
+
+
+Definition cons_par (cfg : config) (o : op) (x : obs) : option id :=
+  match o, x with
+  | OpAuthorize r, Out out =>
+      if andb (cf_par_enabled cfg) (andb (negb (is_nil (p_request_uri (ar_params r)))) (started out))
+      then Some (p_request_uri (ar_params r)) else None
+  | _, _ => None
+  end.
+
+Lemma find_par_in c l s : find (fun s => ideq (a_par s) c) l = Some s -> In s l /\ a_par s = c.
+Proof. intros H. apply find_some in H as [H1 H2]. apply N.eqb_eq in H2. auto. Qed.
+
+Local Opaque init_auth.
+Lemma cons_par_spec w st n o v : sfresh n st -> True ->
+  cons_par (w_cfg w) o (snd (step w st n o)) = Some v ->
+  v <> 0 /\ (exists s, In s (st_asess (s_store st)) /\ aget FPar s = v) /\
+  (forall s', In s' (st_asess (s_store (fst (step w st n o)))) -> aget FPar s' <> v).
+Proof.
+  intros F _ H. destruct o; try discriminate.
+  rewrite step_handler in * by (intros d; discriminate). cbn [handler fst snd s_store] in *.
+  rewrite run_lift in *. cbn [fst snd cons_par] in *.
+  destruct (cf_par_enabled (w_cfg w)) eqn:EP; [|discriminate].
+  destruct (is_nil (p_request_uri (ar_params r))) eqn:ER; [discriminate|].
+  destruct (started _) eqn:ES; [|discriminate]. cbn in H. injection H as <-.
+  destruct (init_auth_par_post w n (s_now st) r (s_store st) EP ER ES) as [s [EF [_ [_ RP]]]].
+  apply find_par_in in EF as [Hs Ec].
+  assert (NZ : p_request_uri (ar_params r) <> 0) by (intros Z; rewrite Z in ER; discriminate).
+  split; [auto|split].
+  - exists s; auto.
+  - eapply replaced_gone; eauto.
+Qed.
+Local Transparent init_auth.
+
+Theorem request_uri_once_all w dyn ops : once_from cons_par cons_par (w_cfg w) [] 0 ops (run w dyn ops) = 0.
+Proof.
+  apply (once_all_histories FPar cons_par (fun _ => True)).
+  - intros; eapply cons_par_spec; eauto.
+  - intros w0 st n o v F W H _. eapply cons_par_spec; eauto.
+  - apply Forall_forall; auto.
+Qed.
+
+(* ---- callback ids: dead once the interaction has finished (navigated away) ---- *)
+Definition is_nav (o : out) : bool := match o with ONav _ _ _ => true | _ => false end.
+
+Definition is_page (o : out) : bool := match o with OPage _ => true | _ => false end.
+Lemma continue_auth_acc w n now r st :
+  orb (is_nav (snd (run_seq (continue_auth w n now r) st))) (is_page (snd (run_seq (continue_auth w n now r) st))) = true ->
+  exists s, is_nil (cb_id r) = false /\
+            find (fun s => ideq (a_cb s) (cb_id r)) (st_asess st) = Some s /\ geb now (a_expires s) = false.
+Proof.
+  unfold continue_auth. destruct (is_nil (cb_id r)) eqn:EN; [dead|].
+  cbn. destruct (find _ (st_asess st)) as [s|] eqn:EF; cbn; [|dead].
+  destruct (geb now (a_expires s)) eqn:EX; [dead|].
+  intros _. exists s; auto.
+Qed.
+
+Lemma continue_auth_post w n now r st :
+  is_nav (snd (run_seq (continue_auth w n now r) st)) = true ->
+  exists s, is_nil (cb_id r) = false /\
+            find (fun s => ideq (a_cb s) (cb_id r)) (st_asess st) = Some s /\ geb now (a_expires s) = false /\
+            replaced (st_asess st) (st_asess (fst (run_seq (continue_auth w n now r) st))) (a_id s) FCb.
+Proof.
+  unfold continue_auth. destruct (is_nil (cb_id r)) eqn:EN; [dead|].
+  cbn. destruct (find _ (st_asess st)) as [s|] eqn:EF; cbn; [|dead].
+  destruct (geb now (a_expires s)) eqn:EX; [dead|].
+  rewrite run_seq_bind. unfold authenticate, save_a.
+  destruct (cb_pol r); cbn [run_seq].
+  all: try rewrite run_get_client.
+  all: repeat (cbn; try discriminate; try rewrite run_get_client; break_inner).
+  all: cbn; try discriminate.
+  all: intros _; exists s; repeat split; auto.
+  all: cbn; first [apply replaced_put; reflexivity | apply replaced_del].
+Qed.
+
+Definition cons_cb (_ : config) (o : op) (x : obs) : option id :=
+  match o, x with
+  | OpCallback r, Out out => if is_nav out then Some (cb_id r) else None
+  | _, _ => None
+  end.
+Lemma find_cb_in c l s : find (fun s => ideq (a_cb s) c) l = Some s -> In s l /\ a_cb s = c.
+Proof. intros H. apply find_some in H as [H1 H2]. apply N.eqb_eq in H2. auto. Qed.
+
+Local Opaque continue_auth.
+Lemma cons_cb_spec w st n o v : sfresh n st -> True ->
+  cons_cb (w_cfg w) o (snd (step w st n o)) = Some v ->
+  v <> 0 /\ (exists s, In s (st_asess (s_store st)) /\ aget FCb s = v) /\
+  (forall s', In s' (st_asess (s_store (fst (step w st n o)))) -> aget FCb s' <> v).
+Proof.
+  intros F _ H. destruct o; try discriminate.
+  rewrite step_handler in * by (intros d; discriminate). cbn [handler fst snd s_store] in *.
+  rewrite run_lift in *. cbn [fst snd cons_cb] in *.
+  destruct (is_nav _) eqn:ES; [|discriminate]. injection H as <-.
+  destruct (continue_auth_post w n (s_now st) r (s_store st) ES) as [s [EN [EF [_ RP]]]].
+  apply find_cb_in in EF as [Hs Ec].
+  assert (NZ : cb_id r <> 0) by (intros Z; rewrite Z in EN; discriminate).
+  split; [auto|split].
+  - exists s; auto.
+  - eapply replaced_gone; eauto.
+Qed.
+Local Transparent continue_auth.
+
+Definition acc_cb (_ : config) (o : op) (x : obs) : option id :=
+  match o, x with
+  | OpCallback r, Out out => if orb (is_nav out) (is_page out) then Some (cb_id r) else None
+  | _, _ => None
+  end.
+Local Opaque continue_auth.
+Lemma acc_cb_spec w st n o v : sfresh n st -> True ->
+  acc_cb (w_cfg w) o (snd (step w st n o)) = Some v -> v <> 0 ->
+  exists s, In s (st_asess (s_store st)) /\ aget FCb s = v.
+Proof.
+  intros F _ H _. destruct o; try discriminate.
+  rewrite step_handler in * by (intros d; discriminate). cbn [handler fst snd s_store] in *.
+  rewrite run_lift in *. cbn [fst snd acc_cb] in *.
+  destruct (orb _ _) eqn:ES; [|discriminate]. injection H as <-.
+  destruct (continue_auth_acc w n (s_now st) r (s_store st) ES) as [s [EN [EF _]]].
+  apply find_cb_in in EF as [Hs Ec]. exists s; auto.
+Qed.
+Local Transparent continue_auth.
+
+(* a callback id through which an interaction finished (navigated away, successfully or not) is
+   never accepted again, neither to continue nor to finish *)
+Theorem callback_dead_after_finish_all w dyn ops : once_from cons_cb acc_cb (w_cfg w) [] 0 ops (run w dyn ops) = 0.
+Proof.
+  apply (once_all_histories FCb cons_cb (fun _ => True)).
+  - intros; eapply cons_cb_spec; eauto.
+  - intros; eapply acc_cb_spec; eauto.
+  - apply Forall_forall; auto.
+Qed.
